@@ -13,7 +13,9 @@
 (* Before every connect the harness delivers all pending notifications (assumption of MqttSession).   *)
 EXTENDS MqttSession, Json, SequencesExt
 
-CONSTANT MaxSteps
+CONSTANTS MaxSteps,
+          Mode        \* "all": everything; "resume": plain reconnect chains of cleanSession=false connections (no takeover,
+                      \* no gates, no admin delete) - what a device that keeps its session does
 VARIABLES out, parked, will, gclean, k, wleft
 
 gvars == <<svars, out, parked, will, gclean, k, wleft>>
@@ -30,6 +32,7 @@ Frozen == UNCHANGED <<ivars, ev>>
 GConnect == \E c \in ConnSet, clean \in BOOLEAN, w \in BOOLEAN :
     /\ \A i \in 1..(Idx(c) - 1) : kst[Conns[i]] # "idle"
     /\ kdel => clean                                     \* after an admin delete only the clean case is determined
+    /\ Mode = "resume" => (~clean /\ ~w /\ kcur = "none")
     /\ KConnect(c, clean, ~clean /\ Resumable)
     /\ will' = [will EXCEPT ![c] = w] /\ gclean' = [gclean EXCEPT ![c] = clean]
     /\ Emit([a |-> "connect", c |-> c, clean |-> clean, will |-> w])
@@ -44,6 +47,7 @@ GDrop == \E c \in ConnSet, mode \in {"eof", "disc", "poke"}, gate \in {"none", "
     /\ gate = "will" => (will[c] /\ mode # "disc")
     /\ gate = "del" => gclean[c]
     /\ gate # "none" => \A x \in ConnSet : parked[x] = "none"        \* one parked teardown at a time
+    /\ Mode = "resume" => (gate = "none" /\ mode # "poke")
     /\ KDrop(c)
     /\ parked' = [parked EXCEPT ![c] = gate]
     /\ Emit([a |-> "drop", c |-> c, mode |-> mode, gate |-> gate])
@@ -57,7 +61,7 @@ GWatch == /\ wleft > 0 /\ wleft' = wleft - 1
           /\ \A c \in ConnSet : parked[c] # "del"      \* (a teardown parked inside delete has not produced its notification yet)
           /\ UNCHANGED <<kvars, parked, will, gclean>> /\ Emit([a |-> "watch"])
 
-GAdmin == /\ kcur # "none" /\ kex /\ ~kdel /\ \A c \in ConnSet : parked[c] = "none"
+GAdmin == /\ Mode = "all" /\ kcur # "none" /\ kex /\ ~kdel /\ \A c \in ConnSet : parked[c] = "none"
           /\ KAdminDelete
           /\ Emit([a |-> "admin"]) /\ UNCHANGED <<parked, will, gclean, wleft>>
 
